@@ -36,6 +36,13 @@ int main(int argc, char **argv) {
     }
     if (textG.parts.empty() || binG.parts.empty()) return 2;
     const Group *text = &textG, *bin = &binG;
+    if (R.args.mode == "openfail-path") {
+        R.progress(0, "io");
+        bin->run(R, "openfail-path", 0, isolate);
+        bin->run(R, "", (uint64_t)-1, isolate);
+        R.write();
+        return R.viols.empty() ? 0 : 1;
+    }
     forCases(R, R.args.cases, "io", [&](uint64_t idx) {
         if (prop == "C13") {
             static const char *modes[] = {"roundtrip", "format", "names"};
